@@ -427,28 +427,44 @@ Qed.
 
 (* the tables a flush writes for the first n sealed memtables *)
 Lemma mk_tables_entries dir next ms : tables_entries (mk_tables dir next ms) = concat ms.
-Proof. revert next. induction ms as [|m ms IH]; intro next; cbn; [reflexivity|]. unfold tables_entries in IH. rewrite IH. reflexivity. Qed.
-Lemma mk_tables_latest dir next ms : tables_latest (mk_tables dir next ms) = fold_right (fun m a => N.max (max_seq m) a) 0 ms.
-Proof. revert next. induction ms as [|m ms IH]; intro next; cbn; [reflexivity|]. rewrite IH. reflexivity. Qed.
+Proof.
+  revert next. induction ms as [|m ms IH]; intro next; [reflexivity|].
+  unfold tables_entries in *. cbn [mk_tables flat_map t_es concat]. rewrite IH. reflexivity.
+Qed.
+Definition chunks_max (ms : list (list entry)) : N := fold_right (fun m a => N.max (max_seq m) a) 0 ms.
+Lemma mk_tables_latest dir next ms : tables_latest (mk_tables dir next ms) = chunks_max ms.
+Proof.
+  revert next. induction ms as [|m ms IH]; intro next; [reflexivity|].
+  unfold tables_latest, chunks_max in *. cbn [mk_tables fold_right t_end]. rewrite IH. reflexivity.
+Qed.
+Lemma mk_tables_ends dir next ms : ends_ok (mk_tables dir next ms).
+Proof.
+  revert next. induction ms as [|m ms IH]; intro next; [constructor|]. cbn [mk_tables]. constructor; [|apply IH].
+  cbn [t_es t_end]. intros e He. apply max_seq_bound. exact He.
+Qed.
+
+Lemma max_seq_le es b : (forall e, In e es -> e_seq e <= b) -> max_seq es <= b.
+Proof.
+  induction es as [|x es IH]; intro H; unfold max_seq in *; cbn [fold_right]; [lia|].
+  assert (e_seq x <= b) by (apply H; left; reflexivity).
+  assert (fold_right (fun e a => N.max (e_seq e) a) 0 es <= b) by (apply IH; intros e He; apply H; right; exact He). lia.
+Qed.
 
 Lemma max_seq_chunks_bound (cs : list (list entry)) b :
-  (forall e, In e (concat cs) -> e_seq e <= b) -> fold_right (fun m a => N.max (max_seq m) a) 0 (map build cs) <= b.
+  (forall e, In e (concat cs) -> e_seq e <= b) -> chunks_max (map build cs) <= b.
 Proof.
-  induction cs as [|c cs IH]; intro H; cbn; [lia|].
+  induction cs as [|c cs IH]; intro H; unfold chunks_max in *; cbn [map fold_right]; [lia|].
   assert (max_seq (build c) <= b).
-  { clear IH. assert (forall e, In e (build c) -> e_seq e <= b) as Hb.
-    { intros e He. apply H. cbn. apply in_or_app. left. apply build_in. exact He. }
-    induction (build c) as [|x m IHm]; cbn; [lia|]. assert (e_seq x <= b) by (apply Hb; left; reflexivity).
-    assert (max_seq m <= b) by (apply IHm; intros e He; apply Hb; right; exact He). lia. }
+  { apply max_seq_le. intros e He. apply H. cbn [concat]. apply in_or_app. left. apply build_in. exact He. }
   assert (fold_right (fun m a => N.max (max_seq m) a) 0 (map build cs) <= b).
-  { apply IH. intros e He. apply H. cbn. apply in_or_app. right. exact He. }
+  { apply IH. intros e He. apply H. cbn [concat]. apply in_or_app. right. exact He. }
   lia.
 Qed.
 
 Lemma max_seq_chunks_reach (cs : list (list entry)) c e :
-  In (c ++ [e]) cs -> e_seq e <= fold_right (fun m a => N.max (max_seq m) a) 0 (map build cs).
+  In (c ++ [e]) cs -> e_seq e <= chunks_max (map build cs).
 Proof.
-  induction cs as [|c0 cs IH]; [intros []|]. cbn. intros [->|H].
+  induction cs as [|c0 cs IH]; [intros []|]. unfold chunks_max in *. cbn [map fold_right]. intros [->|H].
   - pose proof (max_seq_bound _ _ (build_contains_last c e)). lia.
   - specialize (IH H). lia.
 Qed.
@@ -464,7 +480,7 @@ Proof.
   (* the new LatestSeqNum is exactly the boundary after the flushed chunks *)
   assert (N.max (d_latest d) (tables_latest ts) = d_latest d + N.of_nat (length fl)) as EL.
   { unfold ts. rewrite mk_tables_latest, rp_sealed0, firstn_map.
-    assert (fold_right (fun m a0 => N.max (max_seq m) a0) 0 (map build (firstn n cs)) <= d_latest d + N.of_nat (length fl)) as UB.
+    assert (chunks_max (map build (firstn n cs)) <= d_latest d + N.of_nat (length fl)) as UB.
     { apply max_seq_chunks_bound. intros e He. fold fl in He.
       apply In_nth_error in He. destruct He as [j He].
       assert (j < length fl)%nat by (apply nth_error_Some; congruence).
@@ -473,15 +489,15 @@ Proof.
       - rewrite nth_error_app2 by lia. replace (length pre + j - length pre)%nat with j by lia.
         rewrite Ecs, <- app_assoc. rewrite nth_error_app1 by assumption. exact He. }
     destruct (firstn n cs) as [|c0 cs0] eqn:F using rev_ind.
-    - unfold fl. rewrite F. cbn. lia.
-    - clear IHl.
+    - subst fl. unfold chunks_max. cbn [map fold_right concat length]. lia.
+    - try clear IHl.
       assert (In c0 cs) as Hc0 by (apply (firstn_In cs n); rewrite F; apply in_or_app; right; left; reflexivity).
       rewrite Forall_forall in rp_nonempty0. specialize (rp_nonempty0 c0 Hc0).
       destruct (exists_last rp_nonempty0) as [c1 [e1 ->]].
-      assert (e_seq e1 <= fold_right (fun m a0 => N.max (max_seq m) a0) 0 (map build (cs0 ++ [c1 ++ [e1]]))) as LB
+      assert (e_seq e1 <= chunks_max (map build (cs0 ++ [c1 ++ [e1]]))) as LB
         by (eapply max_seq_chunks_reach; apply in_or_app; right; left; reflexivity).
       (* e1 is the last entry of fl: its sequence number is latest + |fl| *)
-      assert (fl = concat cs0 ++ c1 ++ [e1]) as Efl by (unfold fl; rewrite F, concat_app; cbn; rewrite app_nil_r; reflexivity).
+      assert (fl = concat cs0 ++ c1 ++ [e1]) as Efl by (unfold fl; rewrite concat_app; cbn [concat]; rewrite app_nil_r; reflexivity).
       assert (e_seq e1 = d_latest d + N.of_nat (length fl)) as E1.
       { rewrite (rp_contig0 (length pre + (length fl - 1))%nat e1).
         - rewrite Efl, !app_length. cbn. lia.
@@ -531,6 +547,7 @@ Proof.
       rewrite (rp_contig0 (length pre + j)%nat e); [lia|].
       unfold W. rewrite nth_error_app2 by lia. replace (length pre + j - length pre)%nat with j by lia.
       rewrite Ecs, <- app_assoc, nth_error_app1 by assumption. exact Hj.
+  - unfold ends_ok. apply Forall_app. split; [exact rp_ends0|apply mk_tables_ends].
   - rewrite <- ESK. apply Forall_forall. intros e He. rewrite Forall_forall in rp_normal0. apply rp_normal0. eapply skipn_In. exact He.
   - split; [exact SO'|exact LA].
 Qed.
@@ -565,42 +582,41 @@ Proof.
     destruct (beqb k (e_key e)) eqn:B; [|reflexivity]. apply beqb_eq in B. subst. congruence.
 Qed.
 
+Fixpoint replay_core (o : own) (d : dbc) (es : list entry) : dbc :=
+  match es with
+  | [] => d
+  | e :: es' => if owns o (e_key e) then replay_core o (fst (db_write d (e_key e) (e_del e) (e_val e))) es'
+                else replay_core o d es'
+  end.
+
+Lemma db_replay_core o es d : fst (db_replay o d es) = replay_core o d es.
+Proof.
+  unfold db_replay. generalize 0%nat. revert d. induction es as [|e es IH]; intros d n; [reflexivity|].
+  cbn [fold_left replay_core fst snd]. destruct (owns o (e_key e)); [|apply IH].
+  destruct (db_write d (e_key e) (e_del e) (e_val e)) as [d1 r]. cbn [fst]. apply IH.
+Qed.
+
+Lemma db_write_fields d k del v :
+  (d_seq (fst (db_write d k del v)) = d_seq d + 1) /\ (d_tables (fst (db_write d k del v)) = d_tables d) /\
+  (d_latest (fst (db_write d k del v)) = d_latest d).
+Proof. unfold db_write. destruct (_ || _); cbn; auto. Qed.
+
 Lemma rep_replay o es : forall d a pre cs ca,
   Rep d a pre cs ca ->
-  exists cs' ca', Rep (fst (db_replay o d es)) a pre cs' ca' /\
-                  concat cs' ++ ca' = concat cs ++ ca ++ restamp (d_seq d) (filter (fun e => owns o (e_key e)) es) /\
-                  d_tables (fst (db_replay o d es)) = d_tables d /\ d_latest (fst (db_replay o d es)) = d_latest d.
+  exists cs' ca', Rep (replay_core o d es) a pre cs' ca' /\
+                  (concat cs' ++ ca' = concat cs ++ ca ++ restamp (d_seq d) (filter (fun e => owns o (e_key e)) es)) /\
+                  (d_tables (replay_core o d es) = d_tables d) /\ (d_latest (replay_core o d es) = d_latest d).
 Proof.
-  unfold db_replay.
-  assert (forall n d a pre cs ca, Rep d a pre cs ca ->
-          exists cs' ca', Rep (fst (fold_left (fun (acc : dbc * nat) e =>
-               if owns o (e_key e) then
-                 let '(d', r) := db_write (fst acc) (e_key e) (e_del e) (e_val e) in (d', if r then S (snd acc) else snd acc)
-               else acc) es (d, n))) a pre cs' ca' /\
-            concat cs' ++ ca' = concat cs ++ ca ++ restamp (d_seq d) (filter (fun e => owns o (e_key e)) es) /\
-            d_tables (fst (fold_left (fun (acc : dbc * nat) e =>
-               if owns o (e_key e) then
-                 let '(d', r) := db_write (fst acc) (e_key e) (e_del e) (e_val e) in (d', if r then S (snd acc) else snd acc)
-               else acc) es (d, n))) = d_tables d /\
-            d_latest (fst (fold_left (fun (acc : dbc * nat) e =>
-               if owns o (e_key e) then
-                 let '(d', r) := db_write (fst acc) (e_key e) (e_del e) (e_val e) in (d', if r then S (snd acc) else snd acc)
-               else acc) es (d, n))) = d_latest d) as G.
-  { induction es as [|e es IH]; intros n d a pre cs ca R.
-    - exists cs, ca. cbn. rewrite app_nil_r. auto.
-    - cbn [fold_left filter]. destruct (owns o (e_key e)) eqn:O.
-      + cbn [fst snd]. destruct (rep_write d a pre cs ca (e_key e) (e_del e) (e_val e) R) as [cs1 [ca1 [R1 E1]]].
-        destruct (db_write d (e_key e) (e_del e) (e_val e)) as [d1 r] eqn:W. cbn [fst] in R1.
-        destruct (IH (if r then S n else n) d1 a pre cs1 ca1 R1) as [cs2 [ca2 [R2 [E2 [T2 L2]]]]].
-        exists cs2, ca2. repeat split; [exact R2| | |].
-        * rewrite E2. cbn [restamp]. rewrite app_assoc, E1, <- !app_assoc. cbn [app].
-          assert (d_seq d1 = d_seq d + 1) as Sq.
-          { unfold db_write in W. destruct (_ || _); inversion W; subst; reflexivity. }
-          rewrite Sq. reflexivity.
-        * rewrite T2. unfold db_write in W. destruct (_ || _); inversion W; subst; reflexivity.
-        * rewrite L2. unfold db_write in W. destruct (_ || _); inversion W; subst; reflexivity.
-      + apply IH. exact R. }
-  intros. apply G. assumption.
+  induction es as [|e es IH]; intros d a pre cs ca R.
+  - exists cs, ca. cbn. rewrite app_nil_r. auto.
+  - cbn [replay_core filter]. destruct (owns o (e_key e)) eqn:O; [|apply IH; exact R].
+    destruct (rep_write d a pre cs ca (e_key e) (e_del e) (e_val e) R) as [cs1 [ca1 [R1 E1]]].
+    destruct (db_write_fields d (e_key e) (e_del e) (e_val e)) as [Sq [Tb Lt]].
+    destruct (IH _ a pre cs1 ca1 R1) as [cs2 [ca2 [R2 [E2 [T2 L2]]]]].
+    exists cs2, ca2. split; [exact R2|split; [|split]].
+    + rewrite E2, Sq. cbn [restamp]. rewrite app_assoc, E1, <- !app_assoc. reflexivity.
+    + rewrite T2. exact Tb.
+    + rewrite L2. exact Lt.
 Qed.
 
 (* the reader positions itself exactly after the covered prefix: no panic, no end-of-file error *)
@@ -618,17 +634,22 @@ Proof.
 Qed.
 
 Lemma rep_fresh mem wm ts walid :
-  ends_ok ts -> Forall (fun t => True) ts ->
-  (forall t, In t ts -> forall e, In e (t_es t) -> e_seq e <= tables_latest ts) ->
+  ends_ok ts ->
   Rep (mkDb (tables_latest ts) [] [] ts (tables_latest ts) (wal_new (walid + 1)) mem wm) (tables_latest ts) [] [] [].
 Proof.
-  intros _ _ B. constructor; cbn; try reflexivity; try constructor.
+  intro EO. constructor; cbn [d_wal d_latest d_seq d_sealed d_active d_tables wal_new wal_content w_sealed w_active flat_map app concat map length].
+  - reflexivity.
   - intros i e H. destruct i; discriminate.
-  - lia.
-  - lia.
-  - apply Forall_forall. intros e He. apply in_flat_map in He. destruct He as [t [Ht He]]. eapply B; eassumption.
+  - cbn. lia.
+  - cbn. lia.
+  - reflexivity.
+  - reflexivity.
   - constructor.
-  - intro H. congruence.
+  - apply Forall_forall. intros e He. apply in_flat_map in He. destruct He as [t [Ht He]].
+    unfold ends_ok in EO. rewrite Forall_forall in EO. specialize (EO t Ht e He). pose proof (tables_latest_bound _ _ Ht). lia.
+  - exact EO.
+  - constructor.
+  - split; [constructor|]. cbn. intro H. exfalso. apply H. reflexivity.
 Qed.
 
 (* ---- checkpoint -> restore at the level of one database object ---- *)
@@ -637,9 +658,101 @@ Theorem checkpoint_restore_exact d o mem wm :
   let cap := snd (db_checkpoint d) in
   exists es, wal_read (cp_wal cap) (cp_after cap) = ROk es /\
     let r := fst (db_restore mem wm o (cp_tables cap) (cp_walid cap) es) in
-    Inv r /\ (forall k, owns o k = true -> db_get r k = db_get d k) /\
-    (d_latest d = tables_latest (d_tables d) -> d_seq r <= d_seq d).
+    Inv r /\ (forall k, owns o k = true -> db_get r k = db_get d k).
 Proof.
   intros [a [pre [cs [ca R]]]]. cbn [db_checkpoint snd cp_wal cp_after cp_tables cp_walid].
   exists (concat cs ++ ca). split; [apply (wal_read_ok _ _ _ _ _ R)|].
-Admitted.
+  unfold db_restore. rewrite db_replay_core.
+  pose proof (rep_fresh mem wm (d_tables d) (w_id (d_wal d)) (rp_ends _ _ _ _ _ R)) as R0.
+  destruct (rep_replay o (concat cs ++ ca) _ _ _ _ _ R0) as [cs' [ca' [R' [E' [T' L']]]]].
+  cbn [concat app d_seq d_tables d_latest] in E', T', L'.
+  split; [exists (tables_latest (d_tables d)), [], cs', ca'; exact R'|].
+  intros k O. rewrite (db_get_char _ _ _ _ _ k R'), (db_get_char _ _ _ _ _ k R). unfold view. rewrite T', E'.
+  destruct (lastw_restamp (tables_latest (d_tables d)) (filter (fun e => owns o (e_key e)) (concat cs ++ ca)) k) as [V Nn].
+  rewrite (lastw_filter o _ k O) in V, Nn.
+  destruct (lastw (restamp (tables_latest (d_tables d)) (filter (fun e => owns o (e_key e)) (concat cs ++ ca))) k) as [x|] eqn:A,
+           (lastw (concat cs ++ ca) k) as [y|] eqn:B.
+  - exact V.
+  - exfalso. destruct Nn as [_ Nn]. specialize (Nn eq_refl). discriminate.
+  - exfalso. destruct Nn as [Nn _]. specialize (Nn eq_refl). discriminate.
+  - reflexivity.
+Qed.
+
+(* ------------------------------------------------------------------ writes are visible: Put/Delete on any database with the invariant *)
+Theorem db_write_get d k del v k' :
+  Inv d ->
+  db_get (fst (db_write d k del v)) k' = if beqb k' k then (if del then None else Some v) else db_get d k'.
+Proof.
+  intros [a [pre [cs [ca R]]]].
+  destruct (rep_write d a pre cs ca k del v R) as [cs1 [ca1 [R1 E1]]].
+  destruct (db_write_fields d k del v) as [_ [Tb _]].
+  rewrite (db_get_char _ _ _ _ _ k' R1), (db_get_char _ _ _ _ _ k' R). unfold view. rewrite Tb, E1.
+  rewrite app_assoc, lastw_app. cbn [lastw e_key]. destruct (beqb k' k); [|reflexivity].
+  cbn [value_of e_del e_val]. destruct del; reflexivity.
+Qed.
+
+(* ------------------------------------------------------------------ every schedule of actions of one database object *)
+Inductive action :=
+| AWrite (k : bytes) (del : bool) (v : bytes)      (* Put / Delete, including the rotation it may trigger *)
+| ACheckpoint                                       (* locked part of Checkpoint: WAL rotation *)
+| AFlush (n : nat) (dir next : N)                   (* swap of a flush task that had snapshotted the first n sealed memtables *)
+| ACompact (removed : list fname) (added : list table).  (* apply of a compaction change set *)
+
+Definition act_ok (d : dbc) (a : action) : Prop :=
+  match a with
+  | AFlush n _ _ => (n <= length (d_sealed d))%nat
+  | ACompact _ added => ends_ok added /\ tables_latest added <= d_latest d
+  | _ => True
+  end.
+Definition do_action (d : dbc) (a : action) : dbc :=
+  match a with
+  | AWrite k del v => fst (db_write d k del v)
+  | ACheckpoint => fst (db_checkpoint d)
+  | AFlush n dir next => db_flush_swap d n (mk_tables dir next (firstn n (d_sealed d)))
+  | ACompact removed added => db_compact_apply d removed added
+  end.
+
+Theorem inv_step d a : Inv d -> act_ok d a -> Inv (do_action d a).
+Proof.
+  intros [a0 [pre [cs [ca R]]]] OK. destruct a as [k del v| |n dir next|removed added]; cbn [do_action act_ok] in *.
+  - destruct (rep_write d a0 pre cs ca k del v R) as [cs1 [ca1 [R1 _]]]. exists a0, pre, cs1, ca1. exact R1.
+  - exists a0, pre, cs, ca. apply rep_checkpoint. exact R.
+  - assert (n <= length cs)%nat as Hn by (rewrite (rp_sealed _ _ _ _ _ R), map_length in OK; exact OK).
+    destruct (rep_flush_swap d a0 pre cs ca n dir next R Hn) as [a' [pre' R']]. exists a', pre', (skipn n cs), ca. exact R'.
+  - destruct OK as [EO LE]. exists a0, pre, cs, ca. apply rep_compact; assumption.
+Qed.
+
+(* the databases that can exist: a new one, one more action, or a restore from a checkpoint of one that can exist
+   (with any ownership filter and any sizes) - this closes chains checkpoint -> restore -> write -> checkpoint -> restore *)
+Inductive reach : dbc -> Prop :=
+| reach_new mem wm : reach (db_new mem wm)
+| reach_act d a : reach d -> act_ok d a -> reach (do_action d a)
+| reach_restore d o mem wm es :
+    reach d -> wal_read (cp_wal (snd (db_checkpoint d))) (cp_after (snd (db_checkpoint d))) = ROk es ->
+    reach (fst (db_restore mem wm o (cp_tables (snd (db_checkpoint d))) (cp_walid (snd (db_checkpoint d))) es)).
+
+Theorem reach_inv d : reach d -> Inv d.
+Proof.
+  induction 1 as [mem wm|d a _ IH OK|d o mem wm es _ IH RD].
+  - apply inv_new.
+  - apply inv_step; assumption.
+  - destruct (checkpoint_restore_exact d o mem wm IH) as [es' [RD' [I _]]]. cbn zeta in *.
+    rewrite RD in RD'. inversion RD'; subst. exact I.
+Qed.
+
+Theorem checkpoint_exact_db d o mem wm :
+  reach d ->
+  exists es, wal_read (cp_wal (snd (db_checkpoint d))) (cp_after (snd (db_checkpoint d))) = ROk es /\
+    let r := fst (db_restore mem wm o (cp_tables (snd (db_checkpoint d))) (cp_walid (snd (db_checkpoint d))) es) in
+    reach r /\ (forall k, owns o k = true -> db_get r k = db_get d k) /\
+    (forall k del v k', db_get (fst (db_write r k del v)) k' = if beqb k' k then (if del then None else Some v) else db_get r k').
+Proof.
+  intro RC. destruct (checkpoint_restore_exact d o mem wm (reach_inv d RC)) as [es [RD [I G]]]. cbn zeta in *.
+  exists es. split; [exact RD|]. split; [apply reach_restore; assumption|]. split; [exact G|].
+  intros k del v k'. apply db_write_get. exact I.
+Qed.
+
+(* the log reader never panics and never runs into end-of-file on a checkpoint of a reachable database *)
+Theorem replay_never_fails d : reach d ->
+  exists es, wal_read (cp_wal (snd (db_checkpoint d))) (cp_after (snd (db_checkpoint d))) = ROk es.
+Proof. intro RC. destruct (checkpoint_exact_db d OwnAll 0 0 RC) as [es [RD _]]. exists es. exact RD. Qed.
